@@ -151,6 +151,11 @@ fn families(run: &Run) -> Vec<SeriesFam> {
         deeper.scales = vec![];
         fams.push(deeper);
     }
+    // every NaN is the same null: the two deep families with the float-encoded nulls written as other NaNs
+    let nk0 = fams[0].nan_kinds(run.pick(5, 6));
+    let nk2 = fams[2].nan_kinds(run.pick(3, 4));
+    fams.push(nk0);
+    fams.push(nk2);
     fams.shrink_to_fit();
     fams
 }
@@ -191,6 +196,16 @@ fn main() {
     run_traces(&run, &fams[1], &mut tctx);
     total.merge(tctx);
     // large-scope structured families (windows up to 300): sharded by family x tier grid entry
+    {
+        // the value law on every input back end (short words)
+        let balpha: Vec<X> = vec![None, Some(0.0), Some(1.0), Some(3.0)];
+        let bw = all_words_upto(balpha.len(), run.pick(4, 5));
+        let bfns: Vec<R1> = V1_FEATURE.to_vec();
+        total.merge(par_items(&bw, run.threads, |w, ctx| {
+            ctx.states += 1;
+            check_backends_value("backends", &bfns, &[], Law::Value, w, &balpha, cfg_all, ctx)
+        }));
+    }
     total.merge(check_structured_par(&fams[0], !run.quick(), 2, run.threads));
     total.merge(check_structured_par(&fams[1], !run.quick(), 2, run.threads));
     let meta = Meta {
